@@ -20,8 +20,17 @@ Definition triple_same (a b : float * float * float) : bool :=
 
 Definition mk_uf (t : list (vec * res float)) : vec -> res float := fun x => lookup vsame x t miss.
 Definition mk_ug (t : list (vec * res vec)) : vec -> res vec := fun x => lookup vsame x t miss.
-Definition mk_search (t : list ((vec * vec * Z) * vec)) : vec -> vec -> mats -> Z -> vec :=
-  fun x g _ nit => lookup (fun a b => let '(a1, a2, a3) := a in let '(b1, b2, b3) := b in vsame a1 b1 && vsame a2 b2 && (a3 =? b3)) (x, g, nit) t [].
+(* the recorded answer of the search kernel comes with the S, Y matrices the implementation held at that call: the model's
+   [mats] (the history its matrices were built from) must describe exactly those, otherwise the lookup fails *)
+Definition mats_agree (m : mats) (Sm Ym : list vec) : bool :=
+  match m with
+  | None => match Sm with [] => true | _ => false end
+  | Some (X, G) => lsame vsame (diffs X) Sm && lsame vsame (diffs G) Ym
+  end.
+Definition mk_search (t : list ((vec * vec * Z) * (vec * list vec * list vec))) : vec -> vec -> mats -> Z -> vec :=
+  fun x g m nit =>
+    let '(xbar, Sm, Ym) := lookup (fun a b => let '(a1, a2, a3) := a in let '(b1, b2, b3) := b in vsame a1 b1 && vsame a2 b2 && (a3 =? b3)) (x, g, nit) t ([], [], []) in
+    if mats_agree m Sm Ym then xbar else [].
 Definition mk_dcs (t : list ((float * list (float * float * float)) * (float * task))) :
   float * float * float * float -> list (float * float * float) -> float * task :=
   fun par h => let '(_, _, _, stpmax) := par in
